@@ -32,6 +32,10 @@ const (
 	kJump
 )
 
+// declined is returned by an intrinsic that does not apply to these arguments
+// (the function is then interpreted from its SSA form).
+type declined struct{}
+
 // abortPath ends the current path as "unsupported" (inconclusive).
 type abortPath struct{ reason string }
 
@@ -500,7 +504,9 @@ func callSSA(i *interpreter, caller *frame, callpos token.Pos, fn *ssa.Function,
 			if i.trace {
 				fmt.Fprintf(os.Stderr, "%*s(intrinsic) %s\n", i.depth, "", name)
 			}
-			return ext(fr, args)
+			if r := ext(fr, args); r != (declined{}) {
+				return r
+			}
 		}
 		if r, ok := dynamicIntrinsic(fr, fn, name, args); ok {
 			return r
@@ -517,10 +523,10 @@ func callSSA(i *interpreter, caller *frame, callpos token.Pos, fn *ssa.Function,
 		return nil
 	}
 	if fn.Blocks == nil {
-		panic(abortPath{"no code for function: " + name})
+		panic(abortPath{"no code for function: " + name + " <- " + callerChain(caller)})
 	}
 	if blockedCall(fn) {
-		panic(abortPath{"call into unmodelled package: " + name})
+		panic(abortPath{"call into unmodelled package: " + name + " <- " + callerChain(caller)})
 	}
 	if fn.TypeParams().Len() > 0 && len(fn.TypeArgs()) == 0 {
 		panic(abortPath{"uninstantiated generic " + name})
@@ -565,6 +571,9 @@ func runFrame(fr *frame) {
 		}
 		r := recover()
 		if isControl(r) {
+			if _, ok := r.(abortPath); ok && fr.i.x.abortSite == "" {
+				fr.i.x.abortSite = fr.where()
+			}
 			panic(r)
 		}
 		if s, ok := r.(string); ok && !strings.HasPrefix(s, "runtime error") {
@@ -608,6 +617,13 @@ func runFrame(fr *frame) {
 			}
 		}
 	}
+}
+
+func callerChain(fr *frame) string {
+	if fr == nil {
+		return "(entry)"
+	}
+	return fr.where()
 }
 
 // where renders the call chain (function names only) of a frame.
